@@ -272,7 +272,7 @@ package migrate
 
 //@ func Validate(dir Dir) (err error)
 //@   requires dir != nil
-//@   modifies GvcStoredSum, GvcComputedSum, GvcReadErr, GvcChecksumErr, GvcChecksumCalls, GvcFiles
+//@   modifies GvcStoredSum, GvcComputedSum, GvcReadErr, GvcChecksumErr, GvcChecksumCalls, GvcChecksumAt, GvcFiles
 //@   ensures nil-implies-equal: err == nil && GvcReadErr == nil ==> GvcChecksumCalls != old(GvcChecksumCalls) && gvcHFEqual(GvcStoredSum, GvcComputedSum)
 //@   ensures mismatch-is-checksum-error: GvcReadErr == nil && GvcChecksumCalls != old(GvcChecksumCalls) && GvcChecksumErr == nil && !gvcHFEqual(GvcStoredSum, GvcComputedSum) ==>
 //@           GvcIs[*ChecksumError](err) && err.(*ChecksumError).Total == len(GvcStoredSum) &&
